@@ -350,7 +350,7 @@ pub enum TokenType {
 
     #[regex(r"%[IQM]\*", ignore(case))]
     DirectAddressIncomplete,
-    #[regex(r"%[IQM]([XBWDL])?(\d(\.\d)*)", ignore(case))]
+    #[regex(r"%[IQM]([XBWDL])?(\d+(\.\d+)*)", ignore(case))]
     DirectAddress,
 
     // Expressions
@@ -513,7 +513,7 @@ impl TokenType {
             TokenType::Lword => "'LWORD'",
             TokenType::WString => "'WSTRING'",
             TokenType::DirectAddressIncomplete => "'%I*' | '%Q*' | '%M*' (incomplete address)",
-            TokenType::DirectAddress => "%[IQM]([XBWDL])?(\\d(\\.\\d)*) (direct address)",
+            TokenType::DirectAddress => "%[IQM]([XBWDL])?(\\d+(\\.\\d+)*) (direct address)",
             TokenType::Or => "'OR'",
             TokenType::Xor => "'XOR'",
             TokenType::And => "'AND' | '&'",
